@@ -12,6 +12,35 @@ SHAPES = [[], [0], [0, 3], [1], [7], [3, 4], [2, 3, 4], [1, 1], [5, 1], [33]]
 LAYOUTS = ["C", "F", "sliced", "transposed", "offset-view", "negative-stride", "broadcast"]
 
 
+SCALARS = ["i2", "u2", "i4", "u4", "i8", "f2", "f4", "f8", "c8", "U2", "M8[s]", "m8[ms]"]
+
+
+def rand_struct(rng, depth=0):
+    """a structured dtype spec with a seeded byte order per leaf (all-native, all-swapped, mixed at any level)"""
+    order = rng.choice(["<", ">", "mixed", "mixed"])
+    fields = []
+    for i in range(rng.randint(1, 4)):
+        r = rng.random()
+        name = "f%d" % i
+        if r < 0.25 and depth < 2:
+            fields.append([name, rand_struct(rng, depth + 1)])
+        elif r < 0.35:
+            fields.append([name, rng.choice(["u1", "S3", "bool"])])
+        else:
+            o = order if order != "mixed" else rng.choice("<>")
+            f = [name, o + rng.choice(SCALARS)]
+            if rng.random() < 0.15:
+                f.append([2] if rng.random() < 0.5 else [2, 2])
+            fields.append(f)
+    return fields
+
+
+def pick_dtype(rng, allow_object=True):
+    if rng.random() < 0.25:
+        return rand_struct(rng)
+    return rng.choice([x for x in DTYPES if allow_object or x != "O"])
+
+
 def np_dtype(d):
     if isinstance(d, list):
         return np.dtype([tuple(x[:2]) + ((tuple(x[2]),) if len(x) > 2 else ()) if not isinstance(x[1], list)
